@@ -85,6 +85,11 @@ def job(args):
             th = th0[:npar]
             sens = np.round(rnd.uniform(-1.5, 1.5, size=len(varz) - ns), 3)
             sp_vec = np.array(list(x) + list(sens))
+            if (x, t, th0) == pts[1]:
+                # a whole-number point given with integer dtype (sensitivities 0/1 as at an initial condition)
+                x = [int(round(v)) + 1 for v in x]
+                sens = (np.arange(len(varz) - ns) % 2).astype(int)
+                sp_vec = np.array(list(x) + list(sens), dtype=int)
             try:
                 if npar:
                     m.parameters = list(th)
@@ -166,6 +171,10 @@ def main(argv=None):
     quick = run.tier == "quick"
     shapes = [(d, p) for d in (1, 2, 3) for p in (0, 1, 2, 3)]
     jobs = [("shape(%d,%d)" % s, shape_def(*s), run.seed, True) for s in shapes]
+    # predator-prey with a parameter-free unit-coefficient product (d(I')/dS is the lone symbol I)
+    jobs.append(("LV-unit-product", {"states": ["S", "I"], "state_style": "list", "limits": [None, None], "params": ["beta", "gamma", "mu"],
+                                     "param_style": "list", "derived": [], "events": [],
+                                     "odes": [("S", "beta*S - gamma*S*I"), ("I", "S*I - mu*I")]}, run.seed, True))
     from mc import gen
     for sname in (["SIR", "BD", "UNUSED"] if quick else ["SIR", "BD", "UNUSED", "MIX", "ONE", "SIRS2"]):
         _, dd = gen.seed(gen.seed_values(sname), stochastic=(sname not in ("MIX", "UNUSED")))
